@@ -16,6 +16,8 @@ import Cascette.Proofs.SerialDl
 import Cascette.Proofs.SerialPatchIndex
 import Cascette.Model.RootFile
 import Cascette.Model.SerialTvfs
+import Cascette.Proofs.SerialRoot
+import Cascette.Model.ArchiveIndex
 namespace Cascette.Props.C08
 open Cascette Cascette.Model.Manifest Cascette.Model.Serial Cascette.Proofs.Manifest
 open Cascette.Proofs.Serial Cascette.Spec.Codec
@@ -330,6 +332,66 @@ theorem root_build_some_partial (v : Cascette.Model.RootFile.Version)
     | nil => exact absurd rfl h
     | cons a l => rfl
   simp [this]
+
+/-! ### root: builder form, with the same FileDataID more than once in a block -/
+
+open Cascette.Model.RootFile Cascette.Proofs.RootFile Cascette.Proofs.SerialRoot in
+/-- **root_builder_form** (the second sentence of the property, for `RootBuilder`, V1–V4): for EVERY
+builder content — any number of blocks, records in ANY insertion order, the same FileDataID any
+number of times in one block (`GoodBlock` asks for field widths and name-hash presence only, not
+for distinct or ascending IDs) — outside the recorded V2 header window: `build` succeeds, `parse`
+of the bytes succeeds with the same version, and the parsed records with the flags of their
+blocks are a PERMUTATION of the inserted ones: nothing lost, nothing added, nothing merged, no
+ID moved. Corollary of C03's `parse_build` on the byte-level model the `rp` / `m root` lines of
+the correspondence run compare with `RootBuilder::build` / `RootFile::parse`. -/
+theorem root_builder_form (v : Version) (blocks : List (Nat × Nat × List Rec)) (hne : blocks ≠ [])
+    (hg : ∀ b ∈ blocks, GoodBlock v b.1 b.2.1 b.2.2) (htot : totalOf blocks < 4294967296)
+    (hamb : v = .v2 → ¬ Ambiguous (totalOf blocks) (namedOf blocks)) :
+    ∃ bytes p, build v blocks = some bytes ∧ parse bytes = some p ∧ p.version = v ∧
+      (parsedRecs p).Perm (flagged blocks) := by
+  obtain ⟨bytes, hb, hp⟩ := parse_build v blocks hne hg htot hamb
+  refine ⟨bytes, _, hb, hp, rfl, ?_⟩
+  rw [parsedRecs_mkBlocks]
+  exact flagged_perm_builtBlocks blocks
+
+open Cascette.Model.RootFile in
+/-- kernel-checked instances of the FileDataID delta codec at the place a saturating encoder and
+the wrapping decoder part ways: the same ID twice is the delta 0xFFFFFFFF (not 0), both ways; the
+hand-made column `7, 0xFFFFFFFF, 1` is the IDs 7, 7, 9; IDs at both ends of the u32 range in
+non-ascending order survive. (`fdid_delta_roundtrip` of C03 is the statement for all sequences.) -/
+theorem root_repeated_fdid_delta_witness :
+    encodeDeltas [100, 100, 250] = [100, 4294967295, 149] ∧
+    decodeDeltas [100, 4294967295, 149] = [100, 100, 250] ∧
+    decodeDeltas [7, 4294967295, 1] = [7, 7, 9] ∧ encodeDeltas [7, 7, 9] = [7, 4294967295, 1] ∧
+    decodeDeltas (encodeDeltas [4294967295, 0, 4294967295, 4294967295]) = [4294967295, 0, 4294967295, 4294967295] := by
+  decide
+
+open Cascette.Model.RootFile Cascette.Proofs.RootFile in
+/-- the hypotheses of `root_builder_form` hold of a block that lists FileDataID 100 twice (two
+content keys for one ID), inserted after a larger ID -/
+example : GoodBlock .v1 2 0 [⟨250, List.replicate 16 3, some 7⟩, ⟨100, List.replicate 16 1, some 5⟩,
+    ⟨100, List.replicate 16 2, some 6⟩] :=
+  ⟨by decide, by decide, by decide, by decide, by decide, by decide, by decide, by decide⟩
+
+/-! ### archive index: a record read back is stored unchanged by the builder loaded from it -/
+
+/-- **aidx_stored_idempotent**: `stored ob` is what `to_bytes` + `IndexEntry::parse` make of an
+entry under offset width `ob` (4 / 5 / 6 bytes; 6 = archive index : offset). A record that was
+read under a layout is written back unchanged under the SAME layout — the record-level reason why
+`ArchiveIndexBuilder::from_archive_index(parsed)` must be given the footer's widths in the
+builder's own (key, offset, size) order: for every width and entry, also with values wider than
+the field. The `ap` lines compare the two-pass pipeline (build, parse, from_archive_index, build,
+parse) with this model on every layout. -/
+theorem aidx_stored_idempotent (ob : Nat) (e : Cascette.Model.ArchiveIndex.Entry) :
+    Cascette.Model.ArchiveIndex.stored ob (Cascette.Model.ArchiveIndex.stored ob e) =
+      Cascette.Model.ArchiveIndex.stored ob e := by
+  unfold Cascette.Model.ArchiveIndex.stored
+  split
+  · simp
+  · simp
+  · cases h : e.archive with
+    | some a => simp
+    | none => simp
 
 /-- the hypotheses are satisfiable by non-trivial instances (a V2 install manifest with one tag
 and one file; a ZBSDIFF container with all three blocks non-empty) -/
